@@ -92,9 +92,12 @@ InitD(n) ==
 \* E: top-level sequences of objects (content-stream style), stream variant only
 InitE(X) == \E x \in X, y \in X, z \in X : StartWith(Case(<<x, MinSep(x, y), y, MinSep(y, z), z>>, "stream"))
 
+\* F: every representative leaf as the whole object (`n 0 obj null endobj`, an object-stream member that is one token)
+InitF(X) == \E v \in Variants, x \in X : StartWith(Case(<<x>>, v))
+
 InitQuickA == InitA(AllKinds, 2, 2, 1, 2, 1)
-InitQuickB == InitB(Rep, CtxSmall) \/ InitC(RepSmall) \/ InitD(1) \/ InitE(RepSmall)
+InitQuickB == InitB(Rep, CtxSmall) \/ InitC(RepSmall) \/ InitD(1) \/ InitE(RepSmall) \/ InitF(Rep \cup {EA, ED})
 InitFullA  == InitA(AllKinds, 3, 2, 2, 2, 2)
 InitFullB  == InitB(Rep, CtxFull)
-InitFullC  == InitC(Rep) \/ InitD(2) \/ InitE(Rep)
+InitFullC  == InitC(Rep) \/ InitD(2) \/ InitE(Rep) \/ InitF(Rep \cup {EA, ED, A1, D1})
 =============================================================================
